@@ -317,5 +317,46 @@ func propC11(c *ctx) error {
 			}
 		}
 	}
+	// the same duality on native values the model's value language does not have: typed nils of every nilable kind, non-nil
+	// pointers / functions / channels, structs, arrays — against each other and against the nil literal on either side
+	type nat struct {
+		desc string
+		g    any
+	}
+	var ip *int
+	one := 1
+	fn := func() int { return 1 }
+	ch := make(chan int)
+	nats := []nat{
+		{"nil *S", (*S)(nil)}, {"nil *int", ip}, {"nil []int", []int(nil)}, {"nil map", map[string]int(nil)}, {"nil func", (func() int)(nil)},
+		{"nil chan", (chan int)(nil)}, {"nil error iface", error(nil)}, {"nil []any", []any(nil)}, {"untyped nil", nil},
+		{"*S", &S{A: 1}}, {"*int", &one}, {"empty []int", []int{}}, {"empty map", map[string]int{}}, {"func", fn}, {"chan", ch},
+		{"S{}", S{}}, {"[2]int{}", [2]int{}}, {"int 0", 0}, {"string empty", ""}, {"false", false},
+	}
+	dual := func(srcE, srcN string, data map[string]any, cs J) {
+		e := implEval(srcE, []any{data}, nil)
+		ne := implEval(srcN, []any{data}, nil)
+		res.eval("dualnat|"+jstr(cs)+srcE, true, cs)
+		res.S3Checked++
+		res.count("dual_native_" + e.R)
+		if e.R == "ok" && ne.R == "ok" {
+			if (e.V == "bool:true") == (ne.V == "bool:true") {
+				res.violate(J{"src": srcE + " / " + srcN, "native": cs}, "!= is the negation of ==", e.V+" / "+ne.V, "a != b is not the negation of a == b")
+			}
+		} else if e.R != ne.R {
+			res.violate(J{"src": srcE + " / " + srcN, "native": cs}, "both fail or both succeed", e.R+" / "+ne.R, "== and != disagree on whether the operands are comparable")
+		}
+	}
+	for _, x := range nats {
+		for _, y := range nats {
+			dual("a == b", "a != b", map[string]any{"a": x.g, "b": y.g}, J{"a": x.desc, "b": y.desc})
+		}
+		d := map[string]any{"a": x.g, "w": map[string]any{"f": x.g}, "xs": []any{x.g}}
+		dual("a == nil", "a != nil", d, J{"a": x.desc, "b": "literal nil"})
+		dual("nil == a", "nil != a", d, J{"a": "literal nil", "b": x.desc})
+		dual("w.f == nil", "w.f != nil", d, J{"a": x.desc + " (map entry)", "b": "literal nil"})
+		dual("xs[0] == nil", "xs[0] != nil", d, J{"a": x.desc + " (slice item)", "b": "literal nil"})
+		dual("isNil(a) == true", "isNil(a) != true", d, J{"a": "isNil(" + x.desc + ")", "b": "true"})
+	}
 	return nil
 }
